@@ -319,10 +319,62 @@ def stmt_ends(masked, open_pos, close_pos):
     return out
 
 
+def desugar_let_chains(text, log, item_name):
+    """R4 (generic): `if let P = E && C { B }` (no else) -> `if let P = E { if C { B } }`.
+    Works on the masked text, so strings/comments are never touched; the body is left as is."""
+    n_done = 0
+    pos = 0
+    while True:
+        m = mask(text)
+        mt = re.search(r"\bif\s+let\b", m[pos:])
+        if not mt:
+            break
+        start = pos + mt.start()
+        # find the block-opening brace at paren depth 0
+        d = 0
+        bo = None
+        amp = None
+        k = pos + mt.end()
+        while k < len(m):
+            ch = m[k]
+            if ch in "([":
+                d += 1
+            elif ch in ")]":
+                d -= 1
+            elif ch == "{" and d == 0:
+                bo = k
+                break
+            elif d == 0 and m.startswith("&&", k) and amp is None:
+                amp = k
+            elif ch == ";" and d == 0:
+                break
+            k += 1
+        if bo is None or amp is None:
+            pos = pos + mt.end()
+            continue
+        bc = match_brace(m, bo)
+        after = m[bc + 1:bc + 40].lstrip()
+        if after.startswith("else"):
+            raise Undecided("%s: let-chain with else branch is outside rewrite R4" % item_name)
+        head = text[start:amp].rstrip()
+        cond = text[amp + 2:bo].strip()
+        body = text[bo:bc + 1]
+        new = head + " { if " + cond + " " + body + " }"
+        text = text[:start] + new + text[bc + 1:]
+        n_done += 1
+        pos = start + len(head) + 3
+    if n_done:
+        log.append(dict(item=item_name, rule="R4", before="%d let-chain(s)" % n_done, after="nested if", times=n_done))
+    return text
+
+
 def apply_edits(text, edits, log, item_name):
     """literal / regex rewrites with mandatory match counts"""
     for e in edits or []:
         rule = e.get("rule", "R?")
+        if e.get("letchains"):
+            text = desugar_let_chains(text, log, item_name)
+            continue
         count = e.get("count", 1)
         if "find" in e:
             n = text.count(e["find"])
